@@ -1,4 +1,5 @@
 import RV.Json
+import RV.Drv.Fault
 import RV.Drv.Arith
 import RV.Model.Executor
 import RV.Oracle.Executor
@@ -91,6 +92,7 @@ def handle : Handler := fun op inp impl => do
     match reconcile br wl with
     | .panic => return { model := mkObj [("panic", strJ "?")], holds := holds, tags := "panic" :: tags }
     | .val o => return { model := outToJson o, holds := holds, tags := tags }
+  | "fault" => RV.Drv.Fault.handleFault ["C01", "C06", "C07", "C09", "C11", "C18"] impl
   | _ => .error s!"executor: unknown op {op}"
 
 end RV.Drv.Executor
